@@ -35,6 +35,7 @@ pub struct Profile {
     pub p_modulo: f64,
     pub p_key_via_agg: f64,
     pub p_fn_exprs: f64,
+    pub p_inner_where: f64,
     pub p_unsupported_agg: f64,
     /// Probability of an aggregation over an aggregation grouped by the inner aggregate
     /// (`SELECT t.c, count(*) FROM (SELECT count(*) AS c FROM base GROUP BY key) AS t GROUP BY t.c`).
@@ -66,6 +67,7 @@ impl Profile {
             p_modulo: 0.03,
             p_key_via_agg: 0.04,
             p_fn_exprs: 0.1,
+            p_inner_where: 0.5,
             p_unsupported_agg: 0.0,
             p_nested_group: 0.0,
             p_multi_dp: 0.0,
@@ -73,7 +75,7 @@ impl Profile {
         match prop {
             "C03" => Profile { p_cross: 0.04, p_outer_kinds: 0.05, p_multi_dp: 0.06, p_shared_cte: 0.05, p_nested_group: 0.03, ..base },
             "C01" => Profile { p_cross: 0.06, p_outer_kinds: 0.06, p_shared_cte: 0.03, p_nested_group: 0.05, ..base },
-            "C09" => Profile { p_modulo: 0.12, p_alias_shadow: 0.4, public_keys_only: true, benign_data: true, p_distinct: 0.12, p_row_privacy: 0.15, p_grouped: 0.65, ..base },
+            "C09" => Profile { p_fn_exprs: 0.25, p_modulo: 0.12, p_alias_shadow: 0.4, public_keys_only: true, benign_data: true, p_distinct: 0.12, p_row_privacy: 0.15, p_grouped: 0.65, ..base },
             "C04" => Profile { p_key_via_agg: 0.25, p_nested_group: 0.08, p_nested: 0.0, need_private_key: true, p_grouped: 1.0, p_outer: 0.0, p_distinct: 0.05, ..base },
             "C16" => Profile { benign_data: true, full_catalogue: true, p_public_table: 1.0, p_synthetic: 0.3, ..base },
             "C02" => Profile { p_unsupported_agg: 0.08, p_cross: 0.04, p_outer_kinds: 0.05, p_multi_dp: 0.04, p_nested_group: 0.03, p_shared_cte: 0.08, p_plain: 0.25, p_synthetic: 0.4, p_public_table: 0.5, p_outer: 0.2, ..base },
@@ -250,6 +252,21 @@ pub fn generate(seed: u64, run: u64, prop: &str) -> Generated {
                 if let ColType::IntValues(v) = &c.ty {
                     if v.len() >= 3 {
                         c.ty = ColType::IntValues(vec![-3, -1, 2, 4]);
+                    }
+                }
+            }
+        }
+    }
+    // ... and small integer ranges that straddle zero
+    if rnv.chance(0.2) {
+        for t in [&mut users, &mut orders, &mut items] {
+            for c in t.cols.iter_mut() {
+                if c.name.ends_with("id") {
+                    continue;
+                }
+                if let ColType::IntRange { lo: 0, hi } = c.ty {
+                    if hi <= 100 {
+                        c.ty = ColType::IntRange { lo: -(hi / 2), hi: hi - hi / 2 };
                     }
                 }
             }
@@ -798,6 +815,7 @@ pub fn generate(seed: u64, run: u64, prop: &str) -> Generated {
                 cte: None,
                 raw_sql: Some(sql),
                 holders_override: Some(holders),
+                inner_where: vec![],
             };
             let base = Some((a, base_name.clone()));
             return finish(seed, run, tables2, synthetic, pu, params, query, base, tags, faults, &protected);
@@ -823,7 +841,7 @@ pub fn generate(seed: u64, run: u64, prop: &str) -> Generated {
                 op = rg.pick(&["UNION", "UNION ALL"])
             );
             tags.push("multi_dp".into());
-            let query = QuerySpec { from: vec![], where_: vec![], keys: vec![], aggs: vec![], having: None, outer: None, plain: None, cte: None, raw_sql: None, holders_override: None };
+            let query = QuerySpec { from: vec![], where_: vec![], keys: vec![], aggs: vec![], having: None, outer: None, plain: None, cte: None, raw_sql: None, holders_override: None, inner_where: vec![] };
             let base = Some((a, base_t.name.clone()));
             let mut g = finish(seed, run, tables, synthetic, pu, params, query, base, tags, faults, &protected);
             g.scenario.sql = sql;
@@ -858,7 +876,7 @@ pub fn generate(seed: u64, run: u64, prop: &str) -> Generated {
             let sql = if order { format!("WITH t AS ({}) {} UNION ALL {}", inner, first, second) } else { format!("WITH t AS ({}) {} UNION ALL {}", inner, second, first) };
             tags.push(format!("keys:{}", if public_set_of(&kc.ty).is_some() { "pub" } else { "priv" }));
             tags.push("shared_cte".into());
-            let query = QuerySpec { from: vec![], where_: vec![], keys: vec![], aggs: vec![], having: None, outer: None, plain: None, cte: None, raw_sql: None, holders_override: None };
+            let query = QuerySpec { from: vec![], where_: vec![], keys: vec![], aggs: vec![], having: None, outer: None, plain: None, cte: None, raw_sql: None, holders_override: None, inner_where: vec![] };
             let base = Some((a, base_t.name.clone()));
             let mut g = finish(seed, run, tables, synthetic, pu, params, query, base, tags, faults, &protected);
             g.scenario.sql = sql;
@@ -878,7 +896,7 @@ pub fn generate(seed: u64, run: u64, prop: &str) -> Generated {
         tags.push("plain".into());
         let set_op = if from.len() == 1 && rg.chance(0.3) { Some(*rg.pick(&["UNION", "UNION ALL", "EXCEPT", "INTERSECT"])) } else { None };
         let base = Some((alias_of(&base_t.name), base_t.name.clone()));
-        let query = QuerySpec { from, where_, keys: vec![], aggs: vec![], having: None, outer: None, plain: Some(plain), cte: None, raw_sql: None, holders_override: None };
+        let query = QuerySpec { from, where_, keys: vec![], aggs: vec![], having: None, outer: None, plain: Some(plain), cte: None, raw_sql: None, holders_override: None, inner_where: vec![] };
         if let Some(op) = set_op {
             // a set operation of the projection with itself (both branches read protected rows)
             tags.push("set_operation".into());
@@ -1067,7 +1085,7 @@ pub fn generate(seed: u64, run: u64, prop: &str) -> Generated {
             tags.push("nested".into());
         }
     }
-    let mut query = QuerySpec { from, where_, keys, aggs, having, outer: if cte.is_some() { None } else { outer }, plain: None, cte, raw_sql: None, holders_override: None };
+    let mut query = QuerySpec { from, where_, keys, aggs, having, outer: if cte.is_some() { None } else { outer }, plain: None, cte, raw_sql: None, holders_override: None, inner_where: vec![] };
     // scalar functions around aggregated columns and value-set keys (own stream): every function
     // has its own typing rule, and the DP path turns propagated types into clamp bounds and
     // public key values
@@ -1090,7 +1108,8 @@ pub fn generate(seed: u64, run: u64, prop: &str) -> Generated {
             let q = a.arg.clone();
             let m = lo.abs().max(hi.abs());
             let lit = |x: f64| if is_int { format!("{}", x as i64) } else { format!("{:?}", x) };
-            let (expr, scale, name) = match rfe.below(10) {
+            let straddles = is_int && lo < 0.0 && hi > 0.0;
+            let (expr, scale, name) = match if straddles && rfe.chance(0.5) { 9 } else { rfe.below(10) } {
                 0 => (format!("abs({})", q), m, "abs"),
                 1 => (format!("-{}", q), m, "neg"),
                 2 => (format!("{} * {}", q, q), m * m, "square"),
@@ -1101,6 +1120,8 @@ pub fn generate(seed: u64, run: u64, prop: &str) -> Generated {
                 7 if !is_int => (format!("ceil({})", q), m + 1.0, "ceil"),
                 8 if is_int => (format!("cast({} AS float)", q), m, "cast_float"),
                 9 if !is_int => (format!("{} / 2", q), m, "half"),
+                9 if is_int && lo < 0.0 && hi > 0.0 => (format!("CASE WHEN abs({}) <= 1 THEN {} ELSE 0 END", q, q), m, "case_abs"),
+                6 | 7 if is_int && lo < 0.0 && hi > 0.0 => (format!("CASE WHEN abs({}) >= 2 THEN 1 ELSE 0 END", q), 1.0, "case_abs"),
                 _ => continue,
             };
             a.arg = expr;
@@ -1134,6 +1155,13 @@ pub fn generate(seed: u64, run: u64, prop: &str) -> Generated {
                     k.ambiguous = true;
                     used.push("text_key_fn");
                 }
+                (ColType::IntRange { lo, hi }, None) if *lo < 0 && *hi > 0 && hi - lo <= 12 && !c.optional => {
+                    let m = lo.abs().max(*hi);
+                    k.expr = format!("abs({})", q);
+                    k.public_set = Some((0..=m).map(Cell::Int).collect());
+                    k.ambiguous = true;
+                    used.push("abs_range_key");
+                }
                 (ColType::IntValues(_), Some(set)) => {
                     let (expr, f): (String, Box<dyn Fn(i64) -> i64>) = match rfe.below(4) {
                         0 => (format!("abs({})", q), Box::new(|x: i64| x.abs())),
@@ -1162,6 +1190,18 @@ pub fn generate(seed: u64, run: u64, prop: &str) -> Generated {
             used.sort();
             used.dedup();
             tags.push(format!("fn:{}", used.join("+")));
+        }
+    }
+    // one WHERE conjunct on the base table moved into a derived table around it (own stream): two
+    // stacked filters on the way to the aggregation
+    let mut riw = Rng::stream(seed, run, "inner_where");
+    if riw.chance(profile.p_inner_where) && query.cte.is_none() && query.where_.len() >= 2 {
+        let prefix = format!("{}.", query.from[0].alias);
+        let others: Vec<String> = query.from.iter().skip(1).map(|f| format!("{}.", f.alias)).collect();
+        if let Some(i) = query.where_.iter().position(|w| w.contains(&prefix) && !others.iter().any(|o| w.contains(o.as_str()))) {
+            let w = query.where_.remove(i);
+            query.inner_where.push(w);
+            tags.push("inner_where".into());
         }
     }
     // one of several keys output through MAX / MIN of itself instead of a plain projection (own
